@@ -94,6 +94,9 @@ var mappings = [][2]string{
 	{"g_gap/V300", "g_gap/A48"},
 	{"r15360_7975/V300", "r15360_fl/V300"},
 	{"r44100_fl/V300", "r44100_8000/V300"},
+	{"d_2as/V600", "d_2mpd/V300"},
+	{"d_2mpd_ok/V600", "d_va/A48"},
+	{"d_2as_ok/V300", "d_2mpd/V600"},
 }
 
 // ---------------------------------------------------------------- VoD root with ground truth
@@ -111,6 +114,11 @@ type assetTruth struct {
 	// loaded table lets a segment end where the next starts). The media-derived window is not judged for its video.
 	MediaGap bool
 	Rounding bool // member of the loop-duration family
+	V600     bool // has a second video representation V600
+	// AdmOpen: neither the property text nor the documentation decides whether the asset is to be served (video and audio
+	// of clearly different total duration): every mode must then answer exactly like the scanning server (served or left out)
+	AdmOpen bool
+	Light   bool // positive control of a layout family: a shorter pool (one ClearKey scheme, fewer $Time$ requests)
 	Gen      bool // generated: N, durations, timescale, loop known by construction
 }
 
@@ -167,6 +175,35 @@ func addSecondVideo(root, src, name string, second assetgen.Layout) (*project.Re
 	v.InitURI = "V600/init.mp4"
 	v.MediaPat = strings.Replace(v.MediaPat, "V300/", "V600/", 1)
 	return v, nil
+}
+
+// splitV600 moves the V600 representation (added by addSecondVideo to the video AdaptationSet of Manifest.mpd) into
+// an AdaptationSet of its own ("2as") or into a second MPD of the asset directory, Manifest_b.mpd ("2mpd").
+func splitV600(root, name, how string) error {
+	mp := filepath.Join(root, name, "Manifest.mpd")
+	data, err := os.ReadFile(mp)
+	if err != nil {
+		return err
+	}
+	const v300 = `<Representation id="V300" codecs="avc1.64001e" bandwidth="300000" width="640" height="360"/>`
+	const v600 = `<Representation id="V600" codecs="avc1.64001e" bandwidth="600000" width="640" height="360"/>`
+	const tmpl = `<SegmentTemplate startNumber="1" initialization="$RepresentationID$/init.mp4" media="$RepresentationID$/$Number$.m4s"/>`
+	both := v300 + "\n         " + v600
+	txt := string(data)
+	if !strings.Contains(txt, both) || !strings.Contains(txt, tmpl) {
+		return fmt.Errorf("%s: generated MPD does not have the expected two-representation video AdaptationSet", name)
+	}
+	switch how {
+	case "2as":
+		txt = strings.Replace(txt, both, v300+"\n      </AdaptationSet>\n      <AdaptationSet contentType=\"video\" id=\"3\" mimeType=\"video/mp4\" segmentAlignment=\"true\" startWithSAP=\"1\">\n         "+tmpl+"\n         "+v600, 1)
+		return os.WriteFile(mp, []byte(txt), 0o644)
+	case "2mpd":
+		if err := os.WriteFile(mp, []byte(strings.Replace(txt, both, v300, 1)), 0o644); err != nil {
+			return err
+		}
+		return os.WriteFile(filepath.Join(root, name, "Manifest_b.mpd"), []byte(strings.Replace(txt, both, v600, 1)), 0o644)
+	}
+	return fmt.Errorf("splitV600: %q", how)
 }
 
 func repIDs(dir string) (mpds, reps []string, err error) {
@@ -296,7 +333,7 @@ func buildMaster(root string, thoroughLayouts bool) ([]*assetTruth, error) {
 		if _, err := addSecondVideo(root, src, "g_twov", l2); err != nil {
 			return nil, err
 		}
-		res = append(res, &assetTruth{Name: "g_twov", Adm: true, V: t.Video})
+		res = append(res, &assetTruth{Name: "g_twov", Adm: true, V: t.Video, V600: true})
 	}
 	// admissible, $Number$ addressing, the last sample of the first video segment is 1500 ticks short: only the loaded
 	// table (previous segment ends where the next starts) makes the timeline contiguous
@@ -368,7 +405,7 @@ func buildMaster(root string, thoroughLayouts bool) ([]*assetTruth, error) {
 		if adm != rl.wantAdm {
 			return nil, fmt.Errorf("layout %s: admissible=%v by construction, meant %v (L=%d TS=%d)", rl.name, adm, rl.wantAdm, v.L, v.TS)
 		}
-		res = append(res, &assetTruth{Name: rl.name, Adm: adm, V: v, Rounding: true})
+		res = append(res, &assetTruth{Name: rl.name, Adm: adm, V: v, Rounding: true, Light: true})
 	}
 	// inadmissible 2: two video representations of 4 s and 3 s
 	{
@@ -386,7 +423,56 @@ func buildMaster(root string, thoroughLayouts bool) ([]*assetTruth, error) {
 		if v2.L*1000/v2.TS == t.Video.L*1000/t.Video.TS {
 			return nil, fmt.Errorf("bad_dur durations are equal?")
 		}
-		res = append(res, &assetTruth{Name: "bad_dur", Adm: false, V: t.Video})
+		res = append(res, &assetTruth{Name: "bad_dur", Adm: false, V: t.Video, V600: true})
+	}
+	// duration-disagreement family (ground truth by construction): same-type representations that are NOT in one
+	// AdaptationSet - two video AdaptationSets of one MPD, or two MPDs of one asset directory. The rule (README "Content",
+	// consolidateAsset): representations of the reference content type of an ASSET all have the loop duration, else the
+	// asset is left out. Durations are whole milliseconds (8000 / 6000 ms). *_ok: positive controls (8000 / 8000 ms).
+	for _, dl := range []struct {
+		name       string
+		how        string
+		first, sec []int // samples per segment of V300 / V600 (3000 ticks at 90 kHz)
+		thorough   bool
+	}{
+		{"d_2as", "2as", []int{60, 60, 60, 60}, []int{60, 60, 60}, false},
+		{"d_2mpd", "2mpd", []int{60, 60, 60, 60}, []int{60, 60, 60}, false},
+		{"d_2as_ok", "2as", []int{60, 60, 60, 60}, []int{80, 80, 80}, false},
+		{"d_2mpd_ok", "2mpd", []int{60, 60, 60, 60}, []int{80, 80, 80}, false},
+		{"d_2as_r", "2as", []int{60, 60, 60}, []int{60, 60, 60, 60}, true}, // the reference (V300) is the shorter one
+		{"d_2mpd_r", "2mpd", []int{60, 60, 60}, []int{60, 60, 60, 60}, true},
+	} {
+		if dl.thorough && !thoroughLayouts {
+			continue
+		}
+		l := assetgen.Layout{Name: dl.name, TS: 90000, SampleDur: 3000, SegSamples: dl.first, MpdStyle: "number"}
+		t, err := gen(l)
+		if err != nil {
+			return nil, err
+		}
+		l2 := l
+		l2.SegSamples = dl.sec
+		v2, err := addSecondVideo(root, src, dl.name, l2)
+		if err != nil {
+			return nil, err
+		}
+		if err := splitV600(root, dl.name, dl.how); err != nil {
+			return nil, err
+		}
+		adm := v2.L == t.Video.L && (t.Video.L*1000)%t.Video.TS == 0
+		if adm != strings.HasSuffix(dl.name, "_ok") {
+			return nil, fmt.Errorf("layout %s: admissible=%v by construction", dl.name, adm)
+		}
+		res = append(res, &assetTruth{Name: dl.name, Adm: adm, V: t.Video, V600: true, Light: true})
+	}
+	// video 8000 ms, audio 282 frames = 6016 ms: open (see AdmOpen)
+	{
+		l := assetgen.Layout{Name: "d_va", TS: 90000, SampleDur: 3000, SegSamples: []int{60, 60, 60, 60}, AudioSegFrames: []int{94, 94, 94}, MpdStyle: "number"}
+		t, err := gen(l)
+		if err != nil {
+			return nil, err
+		}
+		res = append(res, &assetTruth{Name: "d_va", Adm: false, AdmOpen: true, V: t.Video, A: t.Audio})
 	}
 	for _, a := range res {
 		var err error
@@ -435,10 +521,17 @@ func buildPool(assets []*assetTruth, ref *srv.S) (*pool, error) {
 		tnr := tl.Cfg{Mode: "tlnr", SNR: -1, TSBD: -1}
 		if !a.Adm {
 			// must be left out: a short probe of every request kind
-			for _, c := range []tl.Cfg{num, tim, tnr} {
-				add("mpd", c.Prefix(a.Name)+"/"+a.MPDs[0], t1MS)
+			for _, m := range a.MPDs {
+				for _, c := range []tl.Cfg{num, tim, tnr} {
+					add("mpd", c.Prefix(a.Name)+"/"+m, t1MS)
+				}
+				add("mpd", num.Prefix(a.Name)+"/"+m, t2MS)
 			}
-			add("mpd", num.Prefix(a.Name)+"/"+a.MPDs[0], t2MS)
+			if a.A != nil {
+				add("init", num.Prefix(a.Name)+"/"+a.A.InitURI, t1MS)
+				add("seg", tl.SegURL(num, a.TL, a.A, 1), t1MS)
+				add("seg", tl.SegURL(num, a.TL, a.A, int64(a.V.N)+1), t1MS)
+			}
 			add("init", num.Prefix(a.Name)+"/"+a.V.InitURI, t1MS)
 			for n := int64(0); n <= int64(a.V.N); n++ {
 				add("seg", tl.SegURL(num, a.TL, a.V, n), t1MS)
@@ -447,9 +540,10 @@ func buildPool(assets []*assetTruth, ref *srv.S) (*pool, error) {
 			lms := a.V.L * 1000 / a.V.TS
 			add("far", tl.SegURL(num, a.TL, a.V, (t2MS-30_000)/lms*int64(a.V.N)), t2MS)
 			add("drm", tl.Cfg{Mode: "number", SNR: -1, TSBD: -1, Extra: []string{"eccp_cbcs"}}.Prefix(a.Name)+"/"+a.V.InitURI, t1MS)
-			if a.Name == "bad_dur" {
+			if a.V600 {
 				add("init", num.Prefix(a.Name)+"/V600/init.mp4", t1MS)
 				add("seg", fmt.Sprintf("%s/V600/%d.m4s", num.Prefix(a.Name), 1), t1MS)
+				add("seg", fmt.Sprintf("%s/V600/%d.m4s", num.Prefix(a.Name), 46), 100_000)
 			}
 			p.byAsset[a.Name] = rs
 			p.n += len(rs)
@@ -461,7 +555,9 @@ func buildPool(assets []*assetTruth, ref *srv.S) (*pool, error) {
 					add("mpd", c.Prefix(a.Name)+"/"+m, now)
 				}
 			}
-			add("mpd", tl.Cfg{Mode: "number", SNR: 7, TSBD: 20, AtoMS: 500}.Prefix(a.Name)+"/"+m, t1MS+777)
+			if !a.Light {
+				add("mpd", tl.Cfg{Mode: "number", SNR: 7, TSBD: 20, AtoMS: 500}.Prefix(a.Name)+"/"+m, t1MS+777)
+			}
 		}
 		reps := []*project.RepTruth{a.V}
 		if a.A != nil {
@@ -475,6 +571,9 @@ func buildPool(assets []*assetTruth, ref *srv.S) (*pool, error) {
 		}
 		// ClearKey (ECCP) protected variants of an avc / aac representation: MPD, init and media
 		for _, scheme := range []string{"eccp_cbcs", "eccp_cenc"} {
+			if a.Light && scheme == "eccp_cenc" {
+				continue
+			}
 			dc := tl.Cfg{Mode: "number", SNR: -1, TSBD: -1, Extra: []string{scheme}}
 			if scheme == "eccp_cbcs" {
 				add("drm", dc.Prefix(a.Name)+"/"+a.MPDs[0], t1MS)
@@ -487,7 +586,7 @@ func buildPool(assets []*assetTruth, ref *srv.S) (*pool, error) {
 				add("drm", tl.SegURL(dc, a.TL, rt, int64(a.V.N)+1), t1MS)
 			}
 		}
-		if a.Name == "g_twov" || a.Name == "bad_dur" {
+		if a.V600 {
 			add("init", num.Prefix(a.Name)+"/V600/init.mp4", t1MS)
 			for n := 0; n < 4; n++ {
 				add("seg", fmt.Sprintf("%s/V600/%d.m4s", num.Prefix(a.Name), n), t1MS)
@@ -517,6 +616,9 @@ func buildPool(assets []*assetTruth, ref *srv.S) (*pool, error) {
 		}
 		// $Time$ addressing: video from the ground truth, audio from the reference server's timeline
 		for n := int64(0); n <= N; n++ {
+			if a.Light && n > 1 && n < N {
+				continue
+			}
 			add("time", tl.SegURL(tim, a.TL, a.V, n), t1MS)
 		}
 		if a.A != nil && a.Adm {
@@ -974,8 +1076,18 @@ func damage(dir, rep, kind string, rng *rand.Rand) (string, int, bool, error) {
 		}
 		return "gunzipped", 0, true, os.WriteFile(base, plain, 0o644)
 	case "garbage":
-		switch v := rng.Intn(8); {
-		case v >= 6 && goodJSON[rep] != nil:
+		switch v := rng.Intn(10); {
+		case v == 8 && goodGZ[rep] != nil:
+			d := bitFlipJob(rep, rng.Intn(len(goodGZ[rep])), rng.Intn(8))
+			return d.Desc, 0, true, os.WriteFile(gzp, d.Bytes, 0o644)
+		case v == 9 && goodGZ[rep] != nil:
+			ds, err := staleCRCJobs(rep)
+			if err == nil && len(ds) > 0 {
+				d := ds[rng.Intn(len(ds))]
+				return d.Desc, 0, true, os.WriteFile(gzp, d.Bytes, 0o644)
+			}
+			return "zero-bytes", 0, true, os.WriteFile(gzp, nil, 0o644)
+		case v >= 6 && v < 8 && goodJSON[rep] != nil:
 			// well-formed JSON with one value of another type
 			ds, err := typedDamages(goodJSON[rep])
 			if err != nil {
@@ -1193,6 +1305,7 @@ func (wk *worker) captureGood() error {
 			return fmt.Errorf("capture %s: %w", f[0], err)
 		}
 		goodJSON[strings.TrimSuffix(filepath.ToSlash(f[0]), "_data.json.gz")] = plain
+		goodGZ[strings.TrimSuffix(filepath.ToSlash(f[0]), "_data.json.gz")] = data
 	}
 	if len(goodJSON) == 0 {
 		return fmt.Errorf("capture: write mode left no metadata files")
@@ -1200,30 +1313,139 @@ func (wk *worker) captureGood() error {
 	return nil
 }
 
-type sweepJob struct {
-	rep string
-	d   typedDamage
+// goodGZ: the written .gz bytes per representation (captured with goodJSON)
+var goodGZ = map[string][]byte{}
+
+// fileDamage is one damaged variant of a metadata file: Desc for the trace, Bytes = the .gz content to install.
+type fileDamage struct {
+	Desc  string
+	Field string // class for statistics
+	Bytes []byte
 }
 
-// runSweep: one write-mode start, then for every job: the file of the representation is replaced by the type-damaged
+func typedJob(rep string, d typedDamage) (fileDamage, error) {
+	doc, err := applyTyped(goodJSON[rep], d)
+	if err != nil {
+		return fileDamage{}, err
+	}
+	return fileDamage{Desc: "typed:" + d.Path + "=" + d.Value, Field: d.Path, Bytes: gz(doc)}, nil
+}
+
+// bitFlipJob: one bit of the COMPRESSED file flipped (header, deflate blocks, CRC-32 or ISIZE trailer).
+func bitFlipJob(rep string, off, bit int) fileDamage {
+	b := append([]byte{}, goodGZ[rep]...)
+	b[off] ^= 1 << uint(bit)
+	region := "deflate"
+	switch {
+	case off < 10:
+		region = "header"
+	case off >= len(b)-8 && off < len(b)-4:
+		region = "crc"
+	case off >= len(b)-4:
+		region = "isize"
+	}
+	return fileDamage{Desc: fmt.Sprintf("bitflip:%s@%d.%d/%d", region, off, bit, len(b)), Field: "bitflip-" + region, Bytes: b}
+}
+
+// staleCRCJobs: valid gzip streams of an ALTERED document (one numeric value of the table changed to another plausible
+// value, the document still well-formed, of the right shape and with a contiguous table) whose CRC-32 / ISIZE trailer is
+// the one of the original file: the check sum mismatch is the only symptom of the damage.
+func staleCRCJobs(rep string) ([]fileDamage, error) {
+	var top map[string]json.RawMessage
+	if err := json.Unmarshal(goodJSON[rep], &top); err != nil {
+		return nil, err
+	}
+	var segs []map[string]int64
+	if err := json.Unmarshal(top["segments"], &segs); err != nil || len(segs) == 0 {
+		return nil, fmt.Errorf("stale-crc %s: no numeric segment table (%v)", rep, err)
+	}
+	var mts int64
+	_ = json.Unmarshal(top["mediaTimescale"], &mts)
+	orig := goodGZ[rep]
+	trailer := orig[len(orig)-8:]
+	mk := func(desc string, mut func(sg []map[string]int64, tp map[string]json.RawMessage)) fileDamage {
+		sg := make([]map[string]int64, len(segs))
+		for i, m := range segs {
+			sg[i] = map[string]int64{}
+			for k, v := range m {
+				sg[i][k] = v
+			}
+		}
+		tp := map[string]json.RawMessage{}
+		for k, v := range top {
+			tp[k] = v
+		}
+		mut(sg, tp)
+		tp["segments"], _ = json.Marshal(sg)
+		doc, _ := json.Marshal(tp)
+		z := gz(doc)
+		copy(z[len(z)-8:], trailer)
+		return fileDamage{Desc: "stale-crc:" + desc, Field: "stale-crc", Bytes: z}
+	}
+	last := len(segs) - 1
+	step := mts / 2 // half a second
+	if step == 0 {
+		step = 1
+	}
+	var res []fileDamage
+	if last >= 1 {
+		res = append(res,
+			mk("nr-of-last-is-nr-of-previous", func(sg []map[string]int64, _ map[string]json.RawMessage) { sg[last]["nr"] = sg[last-1]["nr"] }),
+			mk("nr-of-second-is-nr-of-first", func(sg []map[string]int64, _ map[string]json.RawMessage) { sg[1]["nr"] = sg[0]["nr"] }),
+			mk("boundary-0/1-moved", func(sg []map[string]int64, _ map[string]json.RawMessage) {
+				sg[0]["endTime"] += step / 4
+				sg[1]["startTime"] += step / 4
+			}),
+			mk("boundary-last-moved", func(sg []map[string]int64, _ map[string]json.RawMessage) {
+				sg[last-1]["endTime"] -= step / 4
+				sg[last]["startTime"] -= step / 4
+			}))
+	}
+	res = append(res,
+		mk("last-endTime-plus-half-second", func(sg []map[string]int64, _ map[string]json.RawMessage) { sg[last]["endTime"] += step }),
+		mk("last-endTime-plus-4-ninths-second", func(sg []map[string]int64, _ map[string]json.RawMessage) { sg[last]["endTime"] += mts * 4 / 9 }),
+		mk("all-times-shifted", func(sg []map[string]int64, _ map[string]json.RawMessage) {
+			for i := range sg {
+				sg[i]["startTime"] += step
+				sg[i]["endTime"] += step
+			}
+		}),
+		mk("mediaTimescale-doubled", func(_ []map[string]int64, tp map[string]json.RawMessage) {
+			tp["mediaTimescale"] = json.RawMessage(fmt.Sprint(2 * mts))
+		}),
+		mk("defaultSampleDuration-plus-1", func(_ []map[string]int64, tp map[string]json.RawMessage) {
+			var d int64
+			_ = json.Unmarshal(tp["defaultSampleDuration"], &d)
+			tp["defaultSampleDuration"] = json.RawMessage(fmt.Sprint(d + 1))
+		}))
+	return res, nil
+}
+
+// runSweep: one write-mode start, then for every job: the file of the representation is replaced by the damaged
 // variant (only that file is damaged at any time) and a read-mode server is started.
-func (wk *worker) runSweep(idx int, root, rep string, jobs []typedDamage) error {
+func (wk *worker) runSweep(idx int, root, rep string, jobs []fileDamage) error {
 	if err := wk.wipe(); err != nil {
 		return err
 	}
 	dir := wk.rdRoot(root)
 	wk.w.Emit(tr.E{"ev": "hdr", "beh": idx, "vod": wk.id, "root": root, "map": map[string]string{"r1": rep, "r2": "-"},
-		"desc": fmt.Sprintf("%s:S+ then %d x [type-damage(%s) S-]", root, len(jobs), rep)})
+		"desc": fmt.Sprintf("%s:S+ then %d x [file-damage(%s) S-]", root, len(jobs), rep)})
 	s, errStr := startServer(wk.vod, dir, true)
 	wk.emitInstance(0, true, root, s, errStr)
 	if s != nil {
 		s.Cancel()
 	}
+	asset, id := filepath.Split(rep)
+	base := filepath.Join(dir, asset, id+"_data.json")
 	for i, d := range jobs {
-		if err := writeTyped(dir, rep, d); err != nil {
-			return fmt.Errorf("sweep %s %v: %w", rep, d, err)
+		_ = os.Remove(base)
+		if err := os.MkdirAll(filepath.Dir(base), 0o755); err != nil {
+			return err
 		}
-		wk.w.Emit(tr.E{"ev": "damage", "rep": rep, "kind": "garbage", "variant": "typed:" + d.Path + "=" + d.Value, "off": 0, "precond": true})
+		if err := os.WriteFile(base+".gz", d.Bytes, 0o644); err != nil {
+			return fmt.Errorf("sweep %s %s: %w", rep, d.Desc, err)
+		}
+		wk.w.Emit(tr.E{"ev": "damage", "rep": rep, "kind": "garbage", "variant": d.Desc, "off": 0, "precond": true})
 		s, errStr := startServer(wk.vod, dir, false)
 		wk.emitInstance(i+1, false, root, s, errStr)
 		if s != nil {
@@ -1452,7 +1674,7 @@ func (wk *worker) reference(buildPoolNow bool) error {
 		if a.A != nil {
 			na = a.A.N
 		}
-		wk.w.Emit(tr.E{"ev": "ref", "vod": wk.id, "asset": a.Name, "adm": a.Adm, "reps": repKeys(a), "nv": a.V.N, "na": na,
+		wk.w.Emit(tr.E{"ev": "ref", "vod": wk.id, "asset": a.Name, "adm": a.Adm, "open": a.AdmOpen, "reps": repKeys(a), "nv": a.V.N, "na": na,
 			"listed": o.listed, "cls": o.cls})
 		if a.Adm {
 			// the scanning server's own declared timeline against what it serves (inst -1)
@@ -1528,7 +1750,7 @@ func Main(args []string) error {
 	gen := fs.String("gen", "", "behaviours from TLC (one JSON object per line)")
 	work := fs.String("work", "", "scratch directory")
 	seed := fs.Int64("seed", 1, "seed")
-	n := fs.Int("n", 0, "number of behaviours to replay (0 = all); behaviours ending in Start, Start(read) are always kept (they cover every shorter behaviour as a prefix)")
+	n := fs.Int("n", 0, "number of behaviours to replay (0 = all); behaviours ending in Start, Start(read) (they cover every shorter behaviour as a prefix) get up to two thirds of it")
 	workers := fs.Int("workers", 4, "parallel workers (one VoD root copy each)")
 	thorough := fs.Bool("thorough", false, "all loop-duration layouts, full type-damage product")
 	_ = fs.Parse(args)
@@ -1566,6 +1788,11 @@ func Main(args []string) error {
 			} else {
 				rest = append(rest, b)
 			}
+		}
+		// the prefix-covering ones take at most two thirds of the budget (a seeded choice when there are more)
+		if quota := *n * 2 / 3; len(sel) > quota {
+			rng.Shuffle(len(sel), func(i, j int) { sel[i], sel[j] = sel[j], sel[i] })
+			sel = sel[:quota]
 		}
 		rng.Shuffle(len(rest), func(i, j int) { rest[i], rest[j] = rest[j], rest[i] })
 		for _, b := range rest {
@@ -1611,11 +1838,12 @@ func Main(args []string) error {
 	if err := wks[0].captureGood(); err != nil {
 		return err
 	}
-	// type-damage sweep: chunks of (representation, [field := wrong-typed value ...])
+	// file-damage sweep: chunks of (representation, [damaged variant of its file ...]): type-level damage of the JSON,
+	// bit flips of the compressed stream, valid gzip of an altered document with a stale trailer
 	type sweepChunk struct {
 		rep  string
 		root string
-		jobs []typedDamage
+		jobs []fileDamage
 	}
 	var chunks []sweepChunk
 	sweepReps := []string{"g_irr90k/V300", "testpic_2s/A48", "g_1001tl/V300"}
@@ -1631,9 +1859,9 @@ func Main(args []string) error {
 		if err != nil {
 			return err
 		}
-		var jobs []typedDamage
+		var sel []typedDamage
 		if *thorough {
-			jobs = ds
+			sel = ds
 		} else {
 			// every field once or twice, the replacement values seeded
 			byPath := map[string][]typedDamage{}
@@ -1646,14 +1874,51 @@ func Main(args []string) error {
 			}
 			for pi, pth := range order {
 				c := byPath[pth]
-				jobs = append(jobs, c[rng.Intn(len(c))])
+				sel = append(sel, c[rng.Intn(len(c))])
 				if (pi+ri)%2 == 0 {
-					jobs = append(jobs, c[rng.Intn(len(c))])
+					sel = append(sel, c[rng.Intn(len(c))])
 				}
 			}
 		}
+		var jobs []fileDamage
+		for _, d := range sel {
+			j, err := typedJob(rep, d)
+			if err != nil {
+				return err
+			}
+			jobs = append(jobs, j)
+		}
+		// compression level: stale trailer (all), bit flips (thorough: every byte of the file, the bit rotating;
+		// quick: header, trailer and a seeded sample of the deflate blocks)
+		if rep != "testpic_2s/thumbs" {
+			sj, err := staleCRCJobs(rep)
+			if err != nil {
+				return err
+			}
+			if !*thorough && ri > 0 {
+				rng.Shuffle(len(sj), func(i, j int) { sj[i], sj[j] = sj[j], sj[i] })
+				sj = sj[:4]
+			}
+			jobs = append(jobs, sj...)
+		}
+		z := goodGZ[rep]
+		if *thorough {
+			if ri < 4 {
+				for off := range z {
+					jobs = append(jobs, bitFlipJob(rep, off, (off+ri)%8))
+				}
+			}
+		} else {
+			offs := []int{rng.Intn(10), 3, len(z) - 8 + rng.Intn(4), len(z) - 4 + rng.Intn(4)}
+			for i := 0; i < 6; i++ {
+				offs = append(offs, 10+rng.Intn(len(z)-18))
+			}
+			for _, off := range offs {
+				jobs = append(jobs, bitFlipJob(rep, off, rng.Intn(8)))
+			}
+		}
 		for _, d := range jobs {
-			sweepFields[d.Path] = true
+			sweepFields[d.Field] = true
 		}
 		for i := 0; i < len(jobs); i += 12 {
 			root := "separate"
